@@ -16,7 +16,7 @@ type c18Params struct {
 	Mode     string   `json:"mode"` // increments | long | admit
 	Caps     []uint64 `json:"caps"`
 	MaxLen   int      `json:"max_len"`
-	ResizeTo uint64   `json:"resize_to,omitempty"`
+	ResizeTo int64    `json:"resize_to,omitempty"` // >0: that capacity; -1: exactly the current table length; -2: one less than it
 }
 
 func init() {
@@ -167,14 +167,27 @@ func c18Explore(res *Result, raw json.RawMessage, job *Job) {
 							continue
 						}
 						if k == 4 {
-							sk.EnsureCapacity(p.ResizeTo)
-							ops = append(ops, fmt.Sprintf("ensureCapacity(%d)", p.ResizeTo))
-							if sk.TableLen() != tl {
+							before := sk.TableLen()
+							to := uint64(p.ResizeTo)
+							switch p.ResizeTo {
+							case -1:
+								to = uint64(before)
+							case -2:
+								to = uint64(before) - 1
+							}
+							sk.EnsureCapacity(to)
+							ops = append(ops, fmt.Sprintf("ensureCapacity(%d)", to))
+							if sk.TableLen() != before {
 								// a larger table starts a new period with empty counters
 								lb = [3]uint64{}
-								// the table length changed: hashes keep their meaning (raw hashes are per key)
 							}
+							// a request that the current table already satisfies must not lose what was recorded
 							prevSize = sk.Size()
+							for j := 0; j < 3; j++ {
+								if f := sk.Frequency(j); f < lb[j] {
+									fail("under-count", "ensureCapacity", ops, "after ensureCapacity(%d) on a table of length %d frequency(%d) = %d although the key was recorded at least %d times in this period", to, before, j, f, lb[j])
+								}
+							}
 							continue
 						}
 						sk.Increment(k)
@@ -215,7 +228,7 @@ func c18Explore(res *Result, raw json.RawMessage, job *Job) {
 				if p.Mode == "increments" {
 					// all sequences over {inc 0, inc 1, inc 2, reset, resize} up to MaxLen
 					syms := 4
-					if p.ResizeTo > 0 {
+					if p.ResizeTo != 0 {
 						syms = 5
 					}
 					var gen func(seq []int)
